@@ -45,6 +45,10 @@ type Opts struct {
 	// reference checking either (everything schema-valid is installed at once, nothing is
 	// protected from deletion); reference counters are not compared in this configuration.
 	NoRefCheck bool
+	// LateVRF > 0: the last instance (VRF-B) is created with RIB.AddNetworkInstance immediately
+	// before step LateVRF instead of up front. The history must not mention it earlier
+	// (hgen.WithoutEarly removes such steps).
+	LateVRF int
 }
 
 // Trace summarises what happened, for non-triviality rules.
@@ -133,7 +137,11 @@ func NewRIB(fwdRefs bool, o Opts) *rib.RIB {
 		o.Setup(r)
 	}
 	if !o.NoVRFs {
-		for _, n := range hgen.NIs[1:] {
+		vrfs := hgen.NIs[1:]
+		if o.LateVRF > 0 {
+			vrfs = vrfs[:len(vrfs)-1]
+		}
+		for _, n := range vrfs {
 			if err := r.AddNetworkInstance(n); err != nil {
 				panic(err)
 			}
@@ -160,7 +168,16 @@ func Run(h hgen.History, o Opts) (*ev.Verdict, *Trace) {
 	P := o.P
 
 	clockUsed := false
+	lateDone := o.LateVRF <= 0
 	for i, st := range h.Steps {
+		if !lateDone && i >= o.LateVRF {
+			lateDone = true
+			if err := r.AddNetworkInstance(hgen.NIs[len(hgen.NIs)-1]); err != nil {
+				v.Fail(P+"/add-network-instance", "before step %d: %v", i, err)
+				return v, tr
+			}
+			v.Class("network-instance-created-at-runtime")
+		}
 		if st.Clock != 0 {
 			clock.Apply(st.Clock)
 			clockUsed = true
